@@ -80,13 +80,45 @@ def _locals_of(fn):
 
 
 class _Subst(ast.NodeTransformer):
-    def __init__(self, mapping):
+    """Substitutes names by expressions. `late`: what the names are bound to once the enclosing loop is over - closures (lambda bodies, nested
+    functions) read their free variables when they are called, not when they are made, so a closure made in iteration i of an unrolled loop sees
+    the value of the LAST iteration; default values of its parameters are evaluated when it is made. A lambda passed as key= is called at once."""
+
+    def __init__(self, mapping, late=None):
         self.mapping = mapping
+        self.late = late
 
     def visit_Name(self, node):
         if isinstance(node.ctx, ast.Load) and node.id in self.mapping:
             return copy.deepcopy(self.mapping[node.id])
         return node
+
+    def visit_Call(self, node):
+        for k in node.keywords:
+            if k.arg == 'key' and isinstance(k.value, ast.Lambda):
+                k.value._immediate = True
+        return self.generic_visit(node)
+
+    def _closure(self, node, params):
+        if self.late is None or getattr(node, '_immediate', False):
+            return self.generic_visit(node)
+        a = node.args
+        a.defaults = [self.visit(d) for d in a.defaults]
+        a.kw_defaults = [self.visit(d) if d is not None else None for d in a.kw_defaults]
+        inner = _Subst({k: v for k, v in self.late.items() if k not in params}, None)
+        if isinstance(node, ast.Lambda):
+            node.body = inner.visit(node.body)
+        else:
+            node.body = [inner.visit(s_) for s_ in node.body]
+        return node
+
+    def visit_Lambda(self, node):
+        a = node.args
+        return self._closure(node, {x.arg for x in a.args + a.kwonlyargs + a.posonlyargs} | ({a.vararg.arg} if a.vararg else set()) | ({a.kwarg.arg} if a.kwarg else set()))
+
+    def visit_FunctionDef(self, node):
+        a = node.args
+        return self._closure(node, {x.arg for x in a.args + a.kwonlyargs + a.posonlyargs} | ({a.vararg.arg} if a.vararg else set()) | ({a.kwarg.arg} if a.kwarg else set()))
 
 
 def _bind_target(target, elem):
@@ -113,7 +145,24 @@ def _assigned_in(stmts, names):
     return False
 
 
+LOG_METHODS = {'debug', 'info', 'warning', 'warn', 'error', 'exception', 'critical', 'log'}
+
+
+def module_loggers(tree):
+    """Module-level names bound to logging.getLogger(..), plus the name of the logging module itself."""
+    out = set()
+    for st in tree.body:
+        if isinstance(st, ast.Import):
+            out |= {(a.asname or a.name) for a in st.names if a.name == 'logging'}
+        if isinstance(st, ast.Assign) and len(st.targets) == 1 and isinstance(st.targets[0], ast.Name) and isinstance(st.value, ast.Call) and \
+                ast.unparse(st.value.func) in ('logging.getLogger', 'getLogger'):
+            out.add(st.targets[0].id)
+    return out
+
+
 class _PE:
+    loggers = frozenset()
+
     def __init__(self, fn, tables):
         self.fn = fn
         self.locals = _locals_of(fn)
@@ -128,16 +177,20 @@ class _PE:
             return list(node.elts)
         # a display of attribute reads (`(self._states, self._parent)`) or bound methods, written in place
         if isinstance(node, (ast.Tuple, ast.List)) and 1 <= len(node.elts) <= MAX_UNROLL and getattr(self, 'allow_reads', None) is not None:
+            roots = set()
+
             def chain(e):
+                if isinstance(e, (ast.Tuple, ast.List)):      # rows of a table written in place: (label, self.field), ..
+                    return bool(e.elts) and all(_static(x, self.locals) or chain(x) for x in e.elts)
+                if not isinstance(e, ast.Attribute):
+                    return False
                 while isinstance(e, ast.Attribute):
                     e = e.value
-                return isinstance(e, ast.Name)
-            if all(isinstance(e, ast.Attribute) and chain(e) for e in node.elts):
-                roots = set()
-                for e in node.elts:
-                    while isinstance(e, ast.Attribute):
-                        e = e.value
+                if isinstance(e, ast.Name):
                     roots.add(e.id)
+                    return True
+                return False
+            if all(chain(e) for e in node.elts):
                 if not _assigned_in(self.allow_reads, roots) and not any(
                         isinstance(x, ast.Attribute) and isinstance(x.ctx, (ast.Store, ast.Del)) and ast.dump(x)[:0] == '' and any(
                             ast.unparse(x) == ast.unparse(e) for e in node.elts) for s_ in self.allow_reads for x in ast.walk(s_)):
@@ -206,6 +259,19 @@ class _PE:
             def visit_Call(self, node):
                 self.generic_visit(node)
                 f = node.func
+                # self.__dict__.get('field') / vars(self).get('field'): the field, tolerating objects restored from older pickles (normal form: the field)
+                if isinstance(f, ast.Attribute) and f.attr == 'get' and not node.keywords and len(node.args) in (1, 2) and isinstance(node.args[0], ast.Constant) \
+                        and isinstance(node.args[0].value, str) and node.args[0].value.isidentifier() \
+                        and (len(node.args) == 1 or isinstance(node.args[1], ast.Constant) and node.args[1].value is None):
+                    holder = f.value
+                    obj = None
+                    if isinstance(holder, ast.Attribute) and holder.attr == '__dict__' and isinstance(holder.value, ast.Name):
+                        obj = holder.value
+                    elif isinstance(holder, ast.Call) and isinstance(holder.func, ast.Name) and holder.func.id == 'vars' and len(holder.args) == 1 and isinstance(holder.args[0], ast.Name):
+                        obj = holder.args[0]
+                    if obj is not None and obj.id == 'self':
+                        pe.changed += 1
+                        return ast.copy_location(ast.Attribute(value=ast.Name(id='self', ctx=ast.Load()), attr=node.args[0].value, ctx=ast.Load()), node)
                 if isinstance(f, ast.Attribute) and isinstance(f.value, ast.Constant) and isinstance(f.value.value, str) and not node.keywords \
                         and f.attr in ('replace', 'strip', 'lstrip', 'rstrip', 'lower', 'upper', 'title', 'capitalize') \
                         and all(isinstance(a, ast.Constant) and isinstance(a.value, (str, int)) for a in node.args):
@@ -362,11 +428,57 @@ class _PE:
         return out
 
     # ---- statements
+    def _log_call(self, st):
+        """logger.debug('..', <pure arguments>) on a module-level logging.getLogger(..) object (or the logging module itself): diagnostics, no part of any property."""
+        if not (isinstance(st, ast.Expr) and isinstance(st.value, ast.Call) and isinstance(st.value.func, ast.Attribute) and isinstance(st.value.func.value, ast.Name)):
+            return False
+        c = st.value
+        if c.func.value.id not in self.loggers or c.func.value.id in self.locals or c.func.attr not in LOG_METHODS:
+            return False
+        from .normalize import _pure
+        return all(_pure(a) for a in c.args) and all(k.arg is not None and _pure(k.value) for k in c.keywords)
+
+    def _log_test(self, e):
+        from .normalize import _pure
+        if isinstance(e, ast.Call) and isinstance(e.func, ast.Attribute) and isinstance(e.func.value, ast.Name) and e.func.value.id in self.loggers and \
+                e.func.attr in ('isEnabledFor', 'getEffectiveLevel') and all(_pure(a) for a in e.args):
+            return True
+        return _pure(e)
+
     def block(self, stmts):
         out = []
         for i, st in enumerate(stmts):
             self.cur = (stmts, i)
-            out.extend(self.stmt(st))
+            if self.loggers and self._log_call(st):
+                self.changed += 1
+                continue
+            for s_ in self.stmt(st):
+                # `if logger.isEnabledFor(DEBUG): <only logging>` has become an empty test
+                if self.loggers and isinstance(s_, ast.If) and all(isinstance(x, ast.Pass) for x in s_.body + s_.orelse) and self._log_test(s_.test):
+                    self.changed += 1
+                    continue
+                out.append(s_)
+        # c = next(iter(X), D); if c is not D: <body that raises / returns>      ->      for c in X: <body>
+        i = 0
+        while i + 1 < len(out):
+            a, b = out[i], out[i + 1]
+            if isinstance(a, ast.Assign) and len(a.targets) == 1 and isinstance(a.targets[0], ast.Name) and isinstance(a.value, ast.Call) \
+                    and isinstance(a.value.func, ast.Name) and a.value.func.id == 'next' and len(a.value.args) == 2 and not a.value.keywords \
+                    and isinstance(a.value.args[0], ast.Call) and isinstance(a.value.args[0].func, ast.Name) and a.value.args[0].func.id == 'iter' \
+                    and len(a.value.args[0].args) == 1 and isinstance(b, ast.If) and not b.orelse and isinstance(b.body[-1], (ast.Raise, ast.Return)):
+                c_ = a.targets[0].id
+                d_ = a.value.args[1]
+                t_ = b.test
+                is_not = isinstance(t_, ast.Compare) and len(t_.ops) == 1 and isinstance(t_.ops[0], ast.IsNot) and isinstance(t_.left, ast.Name) and t_.left.id == c_ \
+                    and ast.dump(t_.comparators[0]) == ast.dump(d_)
+                later = [x for s_ in out[i + 2:] for x in ast.walk(s_) if isinstance(x, ast.Name) and x.id == c_]
+                if is_not and not later:
+                    loop = ast.copy_location(ast.For(target=ast.Name(id=c_, ctx=ast.Store()), iter=a.value.args[0].args[0], body=b.body, orelse=[]), a)
+                    ast.fix_missing_locations(loop)
+                    out[i:i + 2] = [loop]
+                    self.changed += 1
+                    continue
+            i += 1
         # flag = True; while flag: BODY; flag = E      ->      while True: BODY; if not E: break
         i = 0
         while i + 1 < len(out):
@@ -398,6 +510,9 @@ class _PE:
                         and isinstance(b.value.func.value, ast.Name) and b.value.func.value.id == nm and len(b.value.args) == 1 and not b.value.keywords \
                         and isinstance(b.value.args[0], ast.Dict) and None not in b.value.args[0].keys:
                     add = list(zip(b.value.args[0].keys, b.value.args[0].values))
+                if isinstance(b, ast.Assign) and len(b.targets) == 1 and isinstance(b.targets[0], ast.Subscript) and isinstance(b.targets[0].value, ast.Name) and \
+                        b.targets[0].value.id == nm and isinstance(b.targets[0].slice, ast.Constant) and isinstance(b.targets[0].slice.value, str):
+                    add = [(b.targets[0].slice, b.value)]
                 if add is not None and not any(isinstance(x, ast.Name) and x.id == nm for k_, v_ in add for x in ast.walk(v_)):
                     have = {ast.dump(k_) for k_ in a.value.keys}
                     if not any(ast.dump(k_) in have for k_, v_ in add):
@@ -538,11 +653,12 @@ class _PE:
             return None
         # `for .. in TABLE: if c: ..; return X` (first match returns): the repeated ifs are already exclusive through the returns
         bodies = []
+        late = _bind_target(lp.target, elems[-1])
         for e in elems:
             b = _bind_target(lp.target, e)
             if b is None:
                 return None
-            bodies.append([_Subst(b).visit(copy.deepcopy(s_)) for s_ in lp.body])
+            bodies.append([_Subst(b, late).visit(copy.deepcopy(s_)) for s_ in lp.body])
         if guarded:
             orelse_ = [copy.deepcopy(s_) for s_ in else_block]
 
@@ -587,12 +703,79 @@ class _PE:
         return self.block(res)
 
 
+def _unmemo(fn):
+    """A memo that lives during one call only:
+
+        D = dict()  ..  if k not in D: <compute>; D[k] = V  ..  D[k]
+
+    with D a local used in no other way, stands for computing V where the test is (the values are a function of the key; nothing else changes
+    during the call): the test is dropped, `D[k] = V` becomes `D__memo = V`, every `D[k]` reads D__memo."""
+    n_changed = 0
+    for d_assign in [n for n in ast.walk(fn) if isinstance(n, ast.Assign) and len(n.targets) == 1 and isinstance(n.targets[0], ast.Name) and
+                     (isinstance(n.value, ast.Dict) and not n.value.keys or isinstance(n.value, ast.Call) and isinstance(n.value.func, ast.Name) and
+                      n.value.func.id == 'dict' and not n.value.args and not n.value.keywords)]:
+        D = d_assign.targets[0].id
+        occ = [n for n in ast.walk(fn) if isinstance(n, ast.Name) and n.id == D]
+        if sum(1 for n in occ if isinstance(n.ctx, ast.Store)) != 1:
+            continue
+        ifs = []
+        for n in ast.walk(fn):
+            if isinstance(n, ast.If) and not n.orelse and isinstance(n.test, ast.Compare) and len(n.test.ops) == 1 and isinstance(n.test.ops[0], ast.NotIn) and \
+                    isinstance(n.test.comparators[0], ast.Name) and n.test.comparators[0].id == D and isinstance(n.body[-1], ast.Assign) and \
+                    len(n.body[-1].targets) == 1 and isinstance(n.body[-1].targets[0], ast.Subscript) and isinstance(n.body[-1].targets[0].value, ast.Name) and \
+                    n.body[-1].targets[0].value.id == D and ast.dump(n.body[-1].targets[0].slice) == ast.dump(n.test.left):
+                ifs.append(n)
+        if len(ifs) != 1:
+            continue
+        the_if = ifs[0]
+        key = ast.dump(the_if.test.left)
+        loads = [n for n in ast.walk(fn) if isinstance(n, ast.Subscript) and isinstance(n.ctx, ast.Load) and isinstance(n.value, ast.Name) and n.value.id == D and ast.dump(n.slice) == key]
+        accounted = 1 + 1 + 1 + len(loads)       # the binding, the test, the store, the loads
+        if len(occ) != accounted or not loads or any(isinstance(x, ast.Name) and x.id == D for x in ast.walk(the_if.body[-1].value)):
+            continue
+        # the key must not be reassigned between the test and the loads other than where the test is re-run: require a simple name or tuple of names/attributes
+        tmp = D + '__memo'
+        parents = {}
+        for n in ast.walk(fn):
+            for c in ast.iter_child_nodes(n):
+                parents[id(c)] = n
+        holder = parents.get(id(the_if))
+        blk = next((b for b in (getattr(holder, f, None) for f in ('body', 'orelse', 'finalbody')) if isinstance(b, list) and the_if in b), None)
+        dblk_holder = parents.get(id(d_assign))
+        dblk = next((b for b in (getattr(dblk_holder, f, None) for f in ('body', 'orelse', 'finalbody')) if isinstance(b, list) and d_assign in b), None)
+        if blk is None or dblk is None:
+            continue
+        store = the_if.body[-1]
+        new_store = ast.copy_location(ast.Assign(targets=[ast.Name(id=tmp, ctx=ast.Store())], value=store.value), store)
+        i = blk.index(the_if)
+        blk[i:i + 1] = the_if.body[:-1] + [new_store]
+        for ld in loads:
+            par = parents.get(id(ld))
+            for fld, val in ast.iter_fields(par):
+                if val is ld:
+                    setattr(par, fld, ast.copy_location(ast.Name(id=tmp, ctx=ast.Load()), ld))
+                elif isinstance(val, list):
+                    for j, x in enumerate(val):
+                        if x is ld:
+                            val[j] = ast.copy_location(ast.Name(id=tmp, ctx=ast.Load()), ld)
+        dblk.remove(d_assign)
+        if not dblk:
+            dblk.append(ast.copy_location(ast.Pass(), d_assign))
+        n_changed += 1
+    if n_changed:
+        ast.fix_missing_locations(fn)
+    return n_changed
+
+
 def partial_eval_module(tree):
     """Rewrite every function of the module in place; returns the number of rewrites."""
     tables = module_tables(tree)
+    loggers = module_loggers(tree)
     total = 0
     for fn in [n for n in ast.walk(tree) if isinstance(n, (ast.FunctionDef, ast.AsyncFunctionDef))]:
+        total += _unmemo(fn)
         pe = _PE(fn, tables)
+        pe.loggers = loggers
         fn.body = pe.block(fn.body)
         total += pe.changed
     ast.fix_missing_locations(tree)
